@@ -140,7 +140,7 @@ func newC18World(format string, seed int64, state string, forCreate bool) (*c18W
 		w.slice, w.blocks = 16, 3
 		w.idxName = "a.par2"
 		for i, n := range []int{70, 33, 48} {
-			w.files = append(w.files, scen.File{Name: []string{"f0.bin", "sub/f1.bin", "f2.bin"}[i], Data: scen.GenData(rng, "random", n, 16)})
+			w.files = append(w.files, scen.File{Name: []string{"f0.bin", "sub/f1.bin", "f0.bin.tmp"}[i], Data: scen.GenData(rng, "random", n, 16)})
 		}
 		// f1 ends in a zero byte inside its short last slice
 		w.files[1].Data[32] = 0
@@ -155,11 +155,13 @@ func newC18World(format string, seed int64, state string, forCreate bool) (*c18W
 		w.blocks = 2
 		w.idxName = "a.par"
 		for i, n := range []int{60, 0, 35} {
-			w.files = append(w.files, scen.File{Name: []string{"f0.bin", "f1.bin", "f2 x.bin"}[i], Data: scen.GenData(rng, "random", n, 16)})
+			w.files = append(w.files, scen.File{Name: []string{"f0 x.bin", "f1.bin", "f0 x.bin.tmp"}[i], Data: scen.GenData(rng, "random", n, 16)})
 		}
 	}
 	for i := 0; i < c18ExtraFiles; i++ {
-		w.files = append(w.files, scen.File{Name: fmt.Sprintf("extra%d.bin", i), Data: scen.GenData(rng, "random", 20+rng.Intn(60), 16)})
+		// names a program might pick for its temporary or backup copies of f0
+		// are names of protected files, too
+		w.files = append(w.files, scen.File{Name: w.files[0].Name + []string{"~", ".bak", ".new", ".part", ".1", ".orig", ".swp"}[i%7] + strings.Repeat("_", i/7), Data: scen.GenData(rng, "random", 20+rng.Intn(60), 16)})
 	}
 	if c18ExtraFiles > 0 {
 		w.blocks = 4
@@ -245,6 +247,59 @@ type c18Outcome struct {
 	repaired []string // cleaned paths
 	events   []mon.IOEvent
 	snap     map[string]string
+	// what the operation told its delegate (the CLI prints this) about
+	// each file it wrote
+	reports []c18Report
+}
+
+type c18Report struct {
+	path string
+	err  error
+}
+
+type c18Reports struct{ list *[]c18Report }
+
+func (c c18Reports) add(path string, err error) {
+	*c.list = append(*c.list, c18Report{filepath.Clean(path), err})
+}
+
+type c18P2CreateDelegate struct {
+	par2.DoNothingCreateDelegate
+	c18Reports
+}
+
+func (d c18P2CreateDelegate) OnIndexFileWrite(path string, byteCount int, err error) {
+	d.add(path, err)
+}
+func (d c18P2CreateDelegate) OnRecoveryFileWrite(start, count, total int, path string, dataByteCount, byteCount int, err error) {
+	d.add(path, err)
+}
+
+type c18P2RepairDelegate struct {
+	par2.DoNothingRepairDelegate
+	c18Reports
+}
+
+func (d c18P2RepairDelegate) OnDataFileWrite(i, n int, path string, byteCount int, err error) {
+	d.add(path, err)
+}
+
+type c18P1CreateDelegate struct {
+	par1.DoNothingCreateDelegate
+	c18Reports
+}
+
+func (d c18P1CreateDelegate) OnVolumeFileWrite(i, n int, path string, dataByteCount, byteCount int, err error) {
+	d.add(path, err)
+}
+
+type c18P1RepairDelegate struct {
+	par1.DoNothingRepairDelegate
+	c18Reports
+}
+
+func (d c18P1RepairDelegate) OnDataFileWrite(i, n int, path string, byteCount int, err error) {
+	d.add(path, err)
 }
 
 func (w *c18World) run(dir, op string, faults []mon.Fault) c18Outcome {
@@ -255,19 +310,20 @@ func (w *c18World) run(dir, op string, faults []mon.Fault) c18Outcome {
 	for _, rel := range w.dataRel {
 		paths = append(paths, filepath.Join(setDir, rel))
 	}
+	rep := c18Reports{&o.reports}
 	if w.fmt == "par2" {
 		rec := &mon.RecFS{Inner: par2.VerifDefaultFileIO{}, Faults: faults}
 		o.panicked = core.Protect(func() {
 			switch op {
 			case "create":
-				o.err = par2.VerifCreate(rec, idx, paths, par2.CreateOptions{SliceByteCount: w.slice, NumParityShards: w.blocks, NumGoroutines: 2})
+				o.err = par2.VerifCreate(rec, idx, paths, par2.CreateOptions{SliceByteCount: w.slice, NumParityShards: w.blocks, NumGoroutines: 2, CreateDelegate: c18P2CreateDelegate{c18Reports: rep}})
 			case "verify":
 				var vr par2.VerifyResult
 				vr, o.err = par2.VerifVerify(rec, idx, par2.VerifyOptions{NumGoroutines: 2})
 				o.result = fmt.Sprintf("%+v", vr)
 			default:
 				var rr par2.RepairResult
-				rr, o.err = par2.VerifRepair(rec, idx, par2.RepairOptions{NumGoroutines: 2, DoubleCheck: op == "repair-dc"})
+				rr, o.err = par2.VerifRepair(rec, idx, par2.RepairOptions{NumGoroutines: 2, DoubleCheck: op == "repair-dc", RepairDelegate: c18P2RepairDelegate{c18Reports: rep}})
 				for _, p := range rr.RepairedPaths {
 					o.repaired = append(o.repaired, filepath.Clean(p))
 				}
@@ -279,14 +335,14 @@ func (w *c18World) run(dir, op string, faults []mon.Fault) c18Outcome {
 		o.panicked = core.Protect(func() {
 			switch op {
 			case "create":
-				o.err = par1.VerifCreate(rec, idx, paths, par1.CreateOptions{NumParityFiles: w.blocks})
+				o.err = par1.VerifCreate(rec, idx, paths, par1.CreateOptions{NumParityFiles: w.blocks, CreateDelegate: c18P1CreateDelegate{c18Reports: rep}})
 			case "verify":
 				var vr par1.VerifyResult
 				vr, o.err = par1.VerifVerify(rec, idx, par1.VerifyOptions{VerifyAllData: true})
 				o.result = fmt.Sprintf("%+v", vr)
 			default:
 				var rr par1.RepairResult
-				rr, o.err = par1.VerifRepair(rec, idx, par1.RepairOptions{DoubleCheck: op == "repair-dc"})
+				rr, o.err = par1.VerifRepair(rec, idx, par1.RepairOptions{DoubleCheck: op == "repair-dc", RepairDelegate: c18P1RepairDelegate{c18Reports: rep}})
 				for _, p := range rr.RepairedPaths {
 					o.repaired = append(o.repaired, filepath.Clean(p))
 				}
@@ -479,6 +535,12 @@ func (c *c18) Run(cs core.Case) core.Result {
 				r.Violate("repaired-path-without-completed-write|"+p.Op, "%s: RepairedPaths lists %q, whose write did not complete (write events: %v)", desc, filepath.Base(rp), writeSummary(out.events))
 			}
 		}
+		for _, rp := range out.reports {
+			r.Count("write_reports_checked", 1)
+			if rp.err == nil && !completed[rp.path] {
+				r.Violate("success-reported-for-incomplete-write|"+p.Op, "%s: the delegate was told that %q was written without error, but its write did not complete (write events: %v)", desc, filepath.Base(rp.path), writeSummary(out.events))
+			}
+		}
 		for _, d := range scen.DiffSnap(pre, out.snap) {
 			parts := strings.SplitN(d, " ", 2)
 			if !wrote[parts[1]] {
@@ -630,15 +692,32 @@ func (c *c18) runStrace(r *core.R, w *c18World, p c18Params) {
 			}
 			// only files opened for writing in this run may differ
 			wrote := map[string]bool{}
+			opened := map[string]bool{}
 			for _, ev := range mon.Mutations(tr.Events) {
 				if rel, err := filepath.Rel(work, ev.Path); err == nil {
 					wrote[rel] = true
+					if ev.OK && (ev.Call == "openat" || ev.Call == "open" || ev.Call == "creat") {
+						opened[rel] = true
+					}
+				}
+				// a file moved into place was written under its previous name
+				if ev.Path2 != "" {
+					if rel, err := filepath.Rel(work, ev.Path2); err == nil {
+						wrote[rel] = true
+						if ev.OK {
+							opened[rel] = true
+						}
+					}
 				}
 			}
 			for _, d := range scen.DiffSnap(pre, scen.Snapshot(work)) {
 				parts := strings.SplitN(d, " ", 2)
 				if !wrote[parts[1]] {
 					r.Violate("file-not-being-written-was-altered|"+p.Op, "%s: %s without a write-open event", desc, d)
+				} else if !opened[parts[1]] {
+					// the only attempts to open it for writing failed: nothing was
+					// written to it, so the fault itself cannot have changed it
+					r.Violate("file-altered-although-its-write-open-failed|"+p.Op, "%s: %s, but no open-for-writing of it succeeded in this run", desc, d)
 				}
 			}
 			// rerun without the fault
